@@ -46,7 +46,9 @@ Inductive act :=
 | APeerSet (c : list Z).    (* the peer's best chain changes *)
 
 (* scenario operations of the correspondence run *)
-Inductive cop := CAct (a : act) | CSettle (n : nat).
+(* CProcessAll / CSettleBg: the schedule class "whenever the block thread gets its turn it runs until it
+   is idle" (the harness's bgblocks mode, which runs the real processBlocks goroutine) *)
+Inductive cop := CAct (a : act) | CSettle (n : nat) | CProcessAll | CSettleBg (n : nat).
 
 (* element k mod length, and the list without it *)
 Fixpoint remove_nth {A} (n : nat) (l : list A) : list A :=
@@ -305,14 +307,55 @@ Definition quiescent (w : cworld) : bool := (settle1 w).1.2 =? 0.
 (* ---------------------------------------------------------------------------------------- *)
 (* the correspondence trace: per operation
      code :: digest of the node ++ [length of peer info] ++ peer info ++ payload
-   peer info = missing count, sendheaders received, best chain, channel, unanswered node messages *)
+   peer info = missing count, sendheaders received, block thread alive, best chain, channel, unanswered
+   node messages *)
 
 Definition pinfo (w : cworld) : list Z :=
-  [zlen (missing w); b2z (p_sh (cw_peer w)); zlen (best w)] ++ best w ++
+  [zlen (missing w); b2z (p_sh (cw_peer w)); 1 (* the block thread is alive *); zlen (best w)] ++ best w ++
   [zlen (cw_chan w); zlen (cw_reqs w)] ++ concat (map enc_msg (cw_chan w)) ++ concat (map enc_req (cw_reqs w)).
 
 Definition frame (w1 : cworld) (code : Z) (payload : list Z) : obs :=
   code :: digest (node_sync w1) ++ zlen (pinfo w1) :: pinfo w1 ++ payload.
+
+(* the block thread runs until no delivered block is at the head of the queue; observed: the announced
+   (height, id) pairs and the getdata messages it sent *)
+Fixpoint process_all (fuel : nat) (w : cworld) (ann : list Z) (gds : list (list Z)) : cworld * list Z * list (list Z) :=
+  match fuel with
+  | O => (w, ann, gds)
+  | S f =>
+      if head_ready (node_sync w) then
+        let '(_, popped, reqs) := process_next MAXR LIM parent_of (node_sync w) in
+        let w1 := wstep w AProcess in
+        process_all f w1
+          (match popped with
+           | Some (id, code) => if code =? 0 then ann ++ [height (node_sync w1); id] else ann
+           | None => ann
+           end)
+          (match reqs with [] => gds | _ => gds ++ [reqs] end)
+      else (w, ann, gds)
+  end.
+
+Definition process_all_payload (ann : list Z) (gds : list (list Z)) : list Z :=
+  (zlen ann / 2) :: ann ++ zlen gds :: concat (map (fun l => zlen l :: l) gds).
+
+Definition process_fuel (w : cworld) : nat := S (length (requested (rq (node_sync w)))).
+
+Definition settle1_bg (w : cworld) : cworld * Z * option (Z * Z) :=
+  let s := node_sync w in
+  match cw_chan w, cw_reqs w with
+  | [], [] => if head_ready s then ((process_all (process_fuel w) w [] []).1.1, 3, None) else settle1 w
+  | _, _ => settle1 w
+  end.
+
+Fixpoint settle_run_bg (n : nat) (w : cworld) (steps touts : Z) (ins : list Z) : cworld * Z * Z * list Z :=
+  match n with
+  | O => (w, steps, touts, ins)
+  | S n' =>
+      let '(w1, k, i) := settle1_bg w in
+      if k =? 0 then (w, steps, touts, ins)
+      else settle_run_bg n' w1 (steps + 1) (if k =? 5 then touts + 1 else touts)
+                         (match i with Some (x, y) => ins ++ [x; y] | None => ins end)
+  end.
 
 Definition cstep (w : cworld) (o : cop) : cworld * obs :=
   match o with
@@ -321,6 +364,12 @@ Definition cstep (w : cworld) (o : cop) : cworld * obs :=
       (w1, frame w1 (hd 0 ob) (drop (1 + length (digest (node_sync w1))) ob))
   | CSettle n =>
       let '(w1, steps, touts, ins) := settle_run n w 0 0 [] in
+      (w1, frame w1 OK ([b2z (quiescent w1); steps; touts; zlen ins / 2] ++ ins))
+  | CProcessAll =>
+      let '(w1, ann, gds) := process_all (process_fuel w) w [] [] in
+      (w1, frame w1 OK (process_all_payload ann gds))
+  | CSettleBg n =>
+      let '(w1, steps, touts, ins) := settle_run_bg n w 0 0 [] in
       (w1, frame w1 OK ([b2z (quiescent w1); steps; touts; zlen ins / 2] ++ ins))
   end.
 
@@ -348,9 +397,11 @@ Definition crun (MAXR LIM HT HDT BT DELTA : Z) (M : nat) (parents : list (Z * Z)
      103  at rest the node is neither in sync nor waiting for anything
      104  the final settling run did not come to rest within its bound
      105  the history does not end with a settling run
+     109  the block processing thread has ended although the node is running (processBlocks returned):
+          delivered blocks are never processed again on this connection
      199  malformed observation *)
 
-Record cobs := CO { co_ready : bool; co_nreq : Z; co_chain : list Z; co_missing : Z; co_best : list Z; co_payload : list Z }.
+Record cobs := CO { co_ready : bool; co_nreq : Z; co_chain : list Z; co_missing : Z; co_alive : bool; co_best : list Z; co_payload : list Z }.
 
 Definition parse_cobs (ob : obs) : option cobs :=
   match parse_obs ob with
@@ -358,11 +409,12 @@ Definition parse_cobs (ob : obs) : option cobs :=
   | Some d =>
       match d_payload d with
       | n :: rest =>
-          if (n <? 3) || (zlen rest <? n) then None else
+          if (n <? 4) || (zlen rest <? n) then None else
           match rest with
-          | miss :: _ :: B :: rest2 =>
+          | miss :: _ :: alive :: B :: rest2 =>
               if (B <? 0) || (zlen rest2 <? B) then None else
-              Some (CO (d_ready d) (d_nreq d + nth 6 ob 0) (d_chain d) miss (take (Z.to_nat B) rest2) (drop (Z.to_nat n) rest))
+              Some (CO (d_ready d) (d_nreq d + nth 6 ob 0) (d_chain d) miss (negb (alive =? 0)) (take (Z.to_nat B) rest2)
+                       (drop (Z.to_nat n) rest))
           | _ => None
           end
       | [] => None
@@ -400,13 +452,14 @@ Fixpoint insync_codes (fifo : bool) (k : nat) (ins : list Z) : Z :=
   end.
 
 Definition c01_step (fifo last : bool) (o : cop) (c : cobs) : Z :=
+  if negb (co_alive c) then 109 else
   match o with
   | CAct ACheck =>
       let code := if has_insync (length (co_payload c)) (co_payload c)
                   then insync_code fifo (co_missing c) (co_nreq c) else 0 in
       if negb (code =? 0) then code else if last then 105 else 0
-  | CAct _ => if last then 105 else 0
-  | CSettle _ =>
+  | CAct _ | CProcessAll => if last then 105 else 0
+  | CSettle _ | CSettleBg _ =>
       match co_payload c with
       | q :: _ :: _ :: k :: ins =>
           let code := insync_codes fifo (Z.to_nat k) ins in
